@@ -194,15 +194,31 @@ theorem intoModel_objective {b : BModel α} {m : Model α} (h : intoModel b = so
     exact ⟨trivial, toExp_eq_some.2 ⟨hr.2, rfl⟩⟩
   · cases h
 
-/-- constraints are translated one for one, in order: same name, comparison and assertion flag; the
-left-hand side (and for a comparison the right-hand side) translated by `toExp`. -/
+/-- `to_constraint`, spelled out: name and assertion flag kept, left-hand side translated by `toExp`; a comparison keeps
+its operator and has its right-hand side translated; an assertion is stored as `lhs = 1` (`Constraint::new_logic_assertion`)
+whatever the builder constraint's public `constraint_type` / `rhs` fields hold. -/
+theorem toConstraint_spec {names : List String} {c c' : Constraint α} (h : toConstraint names c = some c') :
+    c'.name = c.name ∧ c'.isAssert = c.isAssert ∧ toExp names c.lhs = some c'.lhs ∧
+    (if c.isAssert then c'.cmp = .eq ∧ c'.rhs = .num Arith.one
+     else c'.cmp = c.cmp ∧ toExp names c.rhs = some c'.rhs) := by
+  rw [toConstraint_closed] at h
+  split at h
+  · next hr =>
+    simp only [Option.some.injEq] at h
+    subst h
+    simp only [cInRange, Bool.and_eq_true, Bool.or_eq_true] at hr
+    by_cases ha : c.isAssert = true
+    · simp only [renameC, ha, if_true, and_self, and_true, true_and]
+      exact toExp_eq_some.2 ⟨hr.1, rfl⟩
+    · simp only [renameC, ha, Bool.false_eq_true, if_false, true_and]
+      exact ⟨toExp_eq_some.2 ⟨hr.1, rfl⟩, toExp_eq_some.2 ⟨hr.2.resolve_left ha, rfl⟩⟩
+  · cases h
+
+/-- constraints are translated one for one, in order, each by `to_constraint`. -/
 theorem intoModel_constraints {b : BModel α} {m : Model α} (h : intoModel b = some m) :
     m.constraints.length = b.constraints.length ∧
     ∀ i (h₁ : i < b.constraints.length) (h₂ : i < m.constraints.length),
-      let c := b.constraints[i]; let c' := m.constraints[i]
-      c'.name = c.name ∧ c'.cmp = c.cmp ∧ c'.isAssert = c.isAssert ∧
-      toExp (b.vars.map (·.1)) c.lhs = some c'.lhs ∧
-      (if c.isAssert then c'.rhs = c.rhs else toExp (b.vars.map (·.1)) c.rhs = some c'.rhs) := by
+      toConstraint (b.vars.map (·.1)) b.constraints[i] = some m.constraints[i] := by
   rw [intoModel_closed] at h
   split at h
   · next hr =>
@@ -212,13 +228,7 @@ theorem intoModel_constraints {b : BModel α} {m : Model α} (h : intoModel b = 
     intro i h₁ h₂
     simp only [bInRange, Bool.and_eq_true, List.all_eq_true] at hr
     have hc := hr.1 _ (List.getElem_mem h₁)
-    simp only [cInRange, Bool.and_eq_true, Bool.or_eq_true] at hc
-    simp only [List.getElem_map, renameC, true_and]
-    refine ⟨toExp_eq_some.2 ⟨hc.1, rfl⟩, ?_⟩
-    by_cases ha : b.constraints[i].isAssert = true
-    · simp [ha]
-    · simp only [ha, Bool.false_eq_true, if_false]
-      exact toExp_eq_some.2 ⟨hc.2.resolve_left ha, rfl⟩
+    simp only [List.getElem_map, toConstraint_closed, hc, if_true]
   · cases h
 
 /-- the result is `Closed` — every variable occurring in it is a declared variable with a usage mark —
@@ -305,7 +315,7 @@ example : toExp ["x"] lin = none := by
   simp [toExp, lin, v0, v1, i0, i1]
 
 private theorem exB_intoModel : intoModel exB = some exM := by
-  simp [intoModel, exB, exM, toExp, lin, lin', v0, v1, i0, i1]
+  simp [intoModel, toConstraint, exB, exM, toExp, lin, lin', v0, v1, i0, i1]
 
 /-- `evalExpr_eq_eval_vals` applies: at `x = 3, y = 1` the builder's evaluator gives `5`, the value
 of the translated expression under the language semantics. -/
@@ -333,7 +343,7 @@ example (ρ : String → ℚ) (hf : Sem.srcFeasible exM ρ = true) : Sem.inDomai
 example : ∃ m, intoModel { exB with objective := none } = some m ∧ m.optType = .satisfy ∧
     m.objective = .num (.fin 0) := by
   refine ⟨{ exM with optType := .satisfy, objective := .num (.fin 0) }, ?_, rfl, rfl⟩
-  simp [intoModel, exB, exM, toExp, lin, lin', v0, v1, i0, i1]
+  simp [intoModel, toConstraint, exB, exM, toExp, lin, lin', v0, v1, i0, i1]
 
 end examples
 
